@@ -23,6 +23,12 @@ CHECKS["C11"] = dict(
    note="Trusted: Lean kernel + Mathlib, standard axioms, compiled model driver, Python harness. Comparison tolerance is the conversions' backward-error scale 2^-40 * sum|c_k| ||T_k||_1; SciPy's chebyt tables and NumPy's poly2cheb are oracles whose results are compared, not modelled.",
    technique="Lean 4 proof about exact conversion model + differential correspondence",
    design="7/C11")
+CHECKS["C10"] = dict(
+   category="proof",
+   text="Lean theorems (QSP/Properties/C10.lean) prove for every phase list and every a in [-1,1] that the executable response model, run on the true cosines/sines, IS the documented product <m| e^{i phi_0 S} prod W(a) e^{i phi_k S} |m> in both conventions and measurements (with the default rule), that U_z = H U_x H so Wx/x = Wz/z, that |response| <= 1, that unknown names are refused, and (respBall_sound) that the driver's rational output plus its error term encloses the defined response. Each run re-checks the audit and compares ComputeQSPResponse with that enclosure for lists of length 1..200 in all (signal_operator, measurement) combinations and at the end points.",
+   note="Trusted: Lean kernel + Mathlib, standard axioms, compiled model driver, Python harness. Comparison tolerance 1e-12*(n+1) plus the proven enclosure error; the correspondence model<->code is sampled (phase lists, points).",
+   technique="Lean 4 proof (definition = model, enclosure soundness) + differential correspondence",
+   design="7/C10")
 NOT_APPLICABLE = {}
 
 def main():
